@@ -956,3 +956,47 @@ Proof.
   - intros k H. rewrite H. reflexivity.
   - intros t H. rewrite H. reflexivity.
 Qed.
+
+(* ------------------------------------------------------------------ the class is decidable: wf_headerb *)
+Lemma split61_app : forall w1 w2, forallb is_ws w1 = true -> split61 (w1 ++ 61 :: w2) = (w1, w2).
+Proof.
+  induction w1 as [|c w1 IH]; intros w2 H; [reflexivity|].
+  cbn [forallb] in H. apply andb_true_iff in H. destruct H as [Hc H].
+  cbn [app split61]. assert (Hne : (c =? 61) = false) by (unfold is_ws in Hc; lia).
+  rewrite Hne, (IH w2 H). reflexivity.
+Qed.
+
+Lemma unval_text : forall v, val_ok v = true -> unval (val_text v) = v.
+Proof.
+  intros [u|b] Hv; cbn [val_text val_ok] in *.
+  - destruct u as [|c u]; [reflexivity|]. cbn [forallb] in Hv. apply andb_true_iff in Hv. destruct Hv as [Hc _].
+    destruct (legal_neq c Hc) as [H34 _]. unfold unval.
+    destruct c as [|p]; [reflexivity|]. destruct (N.eq_dec (N.pos p) 34) as [E|E]; [contradiction|].
+    repeat (destruct p as [p|p|]; try reflexivity); exfalso; apply E; reflexivity.
+  - unfold unval. rewrite rev_app_distr. cbn [rev app]. rewrite rev_involutive. reflexivity.
+Qed.
+
+Lemma unentry_entry_of : forall g i, item_ok i = true -> unentry (entry_of (g, i)) = (g, i).
+Proof.
+  intros g i Hi. unfold item_ok in Hi.
+  apply andb_true_iff in Hi. destruct Hi as [Hi Hv].
+  apply andb_true_iff in Hi. destruct Hi as [Hi Hw2].
+  apply andb_true_iff in Hi. destruct Hi as [Hk Hw1].
+  unfold unentry, entry_of. cbn [e_sep e_gap e_key e_val fst snd]. unfold item_sep.
+  rewrite (split61_app _ _ Hw1), (unval_text _ Hv). destruct i; reflexivity.
+Qed.
+
+Lemma unentry_entries : forall ps tail, wf_ps ps tail = true -> map unentry (entries_of ps) = ps.
+Proof.
+  induction ps as [|[g i] ps IH]; intros tail Hwf; [reflexivity|].
+  destruct (wf_cons_inv _ _ _ _ Hwf) as [_ [Hi [_ Hrest]]].
+  cbn [entries_of map]. fold (entries_of ps). rewrite (unentry_entry_of g i Hi), (IH tail Hrest). reflexivity.
+Qed.
+
+Theorem wf_headerb_iff : forall h, wf_headerb h = true <-> wf_header h.
+Proof.
+  intros h. unfold wf_headerb. split.
+  - destruct (scan h) as [es tail]. intros H. apply andb_true_iff in H. destruct H as [Hwf Heq].
+    apply str_eqb_eq in Heq. exists (map unentry es), tail. split; [symmetry; exact Heq|exact Hwf].
+  - intros [ps [tail [-> Hwf]]]. rewrite (scan_wf ps tail Hwf), (unentry_entries ps tail Hwf), Hwf, str_eqb_refl. reflexivity.
+Qed.
